@@ -144,6 +144,7 @@ def gen_context(rng):
     if not any(k in INT_KEYS for k in keys) and rng.random() < 0.8:
         keys.append('a')
     rng.shuffle(keys)
+    view = rng.random() < 0.14
     for k in keys:
         if k in LIST_KEYS:
             t = 'list'
@@ -167,6 +168,10 @@ def gen_context(rng):
             v = gen_scalar(rng, t)
         ctx.append([k, v])
         types[k] = t
+    if view and 'peek' not in types:
+        # a context value that is a live view of the context (reads it when called)
+        ctx.insert(rng.randrange(len(ctx) + 1), ['peek', {'view': 1}])
+        types['peek'] = 'view'
     return heap, ctx, types
 
 
@@ -320,6 +325,10 @@ class Gen:
         opts = [(2, lambda: ['int', gen_scalar(rng, 'int')])]
         if ns:
             opts.append((5, lambda: ['name', rng.choice(ns)]))
+        if self.genv.get('peek') == 'view' and 'peek' not in sc.locs:
+            ks = [k for k, v in self.genv.items() if v in ('int', 'bool') and k not in sc.locs]
+            if ks:
+                opts.append((2.5, lambda: ['call', ['name', 'peek'], [['str', rng.choice(ks)]]]))
         mr = self.mod_reads('int', sc)
         if mr:
             opts.append((6, lambda: rng.choice(mr)))
@@ -481,6 +490,15 @@ def seeds():
                 'steps': [['import', [['from', 'math', 'gcd', 'g']]], ['eval', ['call', N('g'), [['int', 4], ['int', 6]]]],
                           ['import', [['importas', 'math', 'g']]],
                           ['eval', ['call', ['attr', N('g'), 'gcd'], [['int', 4], ['int', 6]]]], ['eval', N('g')]]})
+    # save() writes at the moment of the call: save then raise; save then read through a live view
+    ex([['assign', 'attempt', ['int', 2]], ['save', ['attempt'], [['k', ['int', 7]]]], ['expr', N('nope')]])
+    ex([['save', [], [['a', ['int', 5]]]], ['assign', 'z', ['bin', 'add', ['int', 1], ['str', 'a']]], ['save', [], [['b', ['int', 6]]]]])
+    ex([['assign', 'x', ['int', 5]], ['save', ['x'], []], ['assign', 'seen', ['call', N('peek'), [['str', 'x']]]], ['save', ['seen'], []]],
+       ctx=[['a', 1], ['lst', {'ref': 0}], ['peek', {'view': 1}]])
+    ex([['save', [], [['a', ['int', 9]]]], ['save', [], [['r', ['bin', 'add', ['call', N('peek'), [['str', 'a']]], ['int', 1]]]]]],
+       ctx=[['a', 1], ['lst', {'ref': 0}], ['peek', {'view': 1}]])
+    ev([['call', N('peek'), [['str', 'a']]], ['lam', [], ['call', N('peek'), [['str', 'a']]], []]],
+       ctx=[['a', 1], ['lst', {'ref': 0}], ['peek', {'view': 1}]])
     # whatever a keyword of save(...) is called, it arrives in context
     ex([['save', [], [['namespace', ['str', 'prod-ns']]]]])
     ex([['assign', 'replicas', ['int', 3]], ['save', ['replicas'], [['context', ['int', 7]], ['key', ['str', 'v']]]]])
@@ -768,6 +786,20 @@ def gen_exec_case(rng):
                             else rng.choice([['int', 3], ['str', 'prod-ns'], ['none'], ['bool', True], ['name', 'lst']])])
             names = [x for x in names if x != 'save']
             block.append(['save', names, kws])
+            saved_keys = names + [k for k, _ in kws]
+            if genv.get('peek') == 'view' and saved_keys and rng.random() < 0.6:
+                # read a key back through the live view right after saving it, and save what was seen
+                k = rng.choice(saved_keys)
+                block.append(['assign', 'seen', ['call', ['name', 'peek'], [['str', k]]]])
+                block.append(['save', ['seen'], []])
+                genv['seen'] = 'int'
+                bound.append('seen')
+            if rng.random() < 0.22:
+                # ... and then the block fails: what was saved before must have arrived
+                block.append(rng.choice([['expr', ['name', 'nope']],
+                                         ['assign', 'z', ['bin', 'add', ['int', 1], ['str', 'a']]],
+                                         ['expr', ['attr', ['int', 3], 'p']]]))
+                break
         elif r < 0.95:
             block.append(['expr', g.expr(rng.choice(['none', 'none', 'int', 'list']), d, sc)])
         else:
